@@ -11,7 +11,7 @@ plus the isolation clause observed on the real heap: every object other than the
 and functional results / copies share no memory with any pre-existing object (`np.shares_memory`).
 """
 from __future__ import annotations
-import os, json, glob, datetime as dt
+import os, re, json, glob, datetime as dt
 from fractions import Fraction
 
 import numpy as np
@@ -60,8 +60,14 @@ NAN = float("nan")
 POOL = 3
 
 TRIM_OPS = {"set", "overlay", "underlay", "foverlay", "funderlay", "bin", "sc", "rsc"}   # writes and arithmetic operators
-FUNCTIONAL = {"new", "init", "call", "fshift", "idx", "foverlay", "funderlay", "hstack", "bin", "sc", "rsc", "un", "copy"}
-METHODS = {"set", "shift", "clip", "overlay", "underlay", "trim", "empty"}
+FUNCTIONAL = {"new", "init", "call", "fshift", "idx", "foverlay", "funderlay", "hstack", "bin", "sc", "rsc", "un", "copy",
+              "stat", "mov", "fill"}
+METHODS = {"set", "shift", "clip", "overlay", "underlay", "trim", "empty", "mstat", "mmov", "mfill", "rw"}
+STATS = ["sum", "prod", "mean", "min", "max", "nansum", "nanprod", "nanmean", "nanmin", "nanmax"]
+MOVS = {"sum": "mov_sum", "avg": "mov_avg", "prod": "mov_prod"}
+FILLS = ["constant", "next", "previous", "nearest", "linear"]
+TESTS = {"lt": lambda d, c: d < c, "le": lambda d, c: d <= c, "gt": lambda d, c: d > c, "ge": lambda d, c: d >= c,
+         "eq": lambda d, c: d == c, "ne": lambda d, c: d != c, "isnan": lambda d, c: np.isnan(d)}
 
 
 # ---------------------------------------------------------------------------------------
@@ -268,6 +274,35 @@ def exec_op(pool, ws):
         pool[I(1)].empty(); return "", I(1), None
     if op == "copy":
         pool[I(1)] = pool[I(2)].copy(); return "", None, I(1)
+    if op == "stat":
+        if ws[2] not in STATS:
+            raise ValueError("bad-op")
+        pool[I(1)] = getattr(ir, ws[2])(pool[I(3)]); return "", None, I(1)
+    if op == "mstat":
+        if ws[2] not in STATS:
+            raise ValueError("bad-op")
+        getattr(pool[I(1)], ws[2])(); return "", I(1), None
+    if op == "mov":
+        w = () if ws[4] == "-" else (int(ws[4]),)
+        pool[I(1)] = getattr(ir, MOVS[ws[2]])(pool[I(3)], *w); return "", None, I(1)
+    if op == "mmov":
+        w = () if ws[3] == "-" else (int(ws[3]),)
+        getattr(pool[I(1)], MOVS[ws[2]])(*w); return "", I(1), None
+    if op in ("fill", "mfill"):
+        off = 1 if op == "fill" else 0
+        method, arg, d = ws[2 + off], ws[3 + off], parse_dates(ws[4 + off])
+        if method not in FILLS:
+            raise ValueError("bad-op")
+        marg = cellf(arg) if method == "constant" else None
+        span = None if d[0] == "all" else impl_dates(d)
+        if op == "fill":
+            pool[I(1)] = ir.fill_missing(pool[I(2)], method, marg, span=span); return "", None, I(1)
+        pool[I(1)].fill_missing(method, marg, span=span); return "", I(1), None
+    if op == "rw":
+        test, c, newv = TESTS[ws[2]], (0.0 if ws[2] == "isnan" else cellf(ws[3])), cellf(ws[4])
+        with np.errstate(invalid="ignore"):
+            pool[I(1)].replace_where(lambda d: test(d, c), newv)
+        return "", I(1), None
     raise ValueError("bad-op")
 
 
@@ -601,6 +636,130 @@ def oracle_step(oracle, reps, ws):
         k, g, i = I(1), ws[2], I(3)
         fn = {"neg": lambda x: -x, "pos": lambda x: x, "abs": lambda x: abs(x)}[g]
         put(k, {key: fn(x) for key, x in oracle[i]["m"].items()}, oracle[i]["nv"])
+    elif op in ("stat", "mstat"):
+        k, f, i = (I(1), ws[2], I(3)) if op == "stat" else (I(1), ws[2], I(1))
+        rep, src = reps[i], oracle[i]
+        nv = src["nv"]
+        if nv == 0 and f in ("min", "max", "nanmin", "nanmax"):
+            raise Undefined
+        m = {}
+        for t in span_of(rep):
+            row = [src["m"].get((t, v)) for v in range(nv)]
+            obs = [x for x in row if x is not None]
+            if not f.startswith("nan"):
+                if len(obs) < nv:
+                    continue
+                g = f
+            else:
+                g = f[3:]
+            if g == "sum":
+                r = sum(obs, Fraction(0))
+            elif g == "prod":
+                r = Fraction(1)
+                for x in obs:
+                    r *= x
+            elif not obs:
+                continue
+            elif g == "mean":
+                r = sum(obs, Fraction(0)) / len(obs)
+            elif g == "min":
+                r = min(obs)
+            else:
+                r = max(obs)
+            m[(t, 0)] = r
+        put(k, m, 1)
+    elif op in ("mov", "mmov"):
+        k, f, i, w = (I(1), ws[2], I(3), ws[4]) if op == "mov" else (I(1), ws[2], I(1), ws[3])
+        rep, src = reps[i], oracle[i]
+        if w == "-":
+            w = -FVAL[rep[0]] if (rep[0] is not None and FVAL[rep[0]] > 0) else -4
+        wl = -int(w)
+        if wl <= 0:
+            raise Undefined
+        m = {}
+        for t in span_of(rep):
+            for v in range(src["nv"]):
+                win = [src["m"].get((t - j, v)) for j in range(wl)]
+                if any(x is None for x in win):
+                    continue
+                if f == "prod":
+                    r = Fraction(1)
+                    for x in win:
+                        r *= x
+                else:
+                    r = sum(win, Fraction(0))
+                    if f == "avg":
+                        r = r / wl
+                m[(t, v)] = r
+        put(k, m, src["nv"])
+    elif op in ("fill", "mfill"):
+        off = 1 if op == "fill" else 0
+        k, i = (I(1), I(2)) if op == "fill" else (I(1), I(1))
+        method, arg, d = ws[2 + off], ws[3 + off], parse_dates(ws[4 + off])
+        rep, src = reps[i], oracle[i]
+        dfreq, serials = o_dates(d, rep)
+        if serials and rep[0] is not None and dfreq != rep[0]:
+            raise Undefined
+        if len(set(serials)) != len(serials) or serials != sorted(serials):
+            raise Undefined                      # the documented neighbour rule speaks about a span in calendar order
+        m = dict(src["m"])
+        const = fr(cellf(arg)) if method == "constant" else None
+        for v in range(src["nv"]):
+            obs = [t for t in serials if (t, v) in src["m"]]
+            for t in serials:
+                if (t, v) in src["m"]:
+                    continue
+                prev = max((u for u in obs if u < t), default=None)
+                nxt = min((u for u in obs if u > t), default=None)
+                val = None
+                if method == "constant":
+                    val = const
+                elif method == "next":
+                    val = src["m"][(nxt, v)] if nxt is not None else None
+                elif method == "previous":
+                    val = src["m"][(prev, v)] if prev is not None else None
+                elif method == "nearest":
+                    if prev is not None and nxt is not None:
+                        # position-based distance inside the span (the span may have a step): positions are monotone in t
+                        ip, it, inx = serials.index(prev), serials.index(t), serials.index(nxt)
+                        val = src["m"][(prev, v)] if it - ip <= inx - it else src["m"][(nxt, v)]
+                    elif prev is not None:
+                        val = src["m"][(prev, v)]
+                    elif nxt is not None:
+                        val = src["m"][(nxt, v)]
+                elif method == "linear":
+                    if prev is not None and nxt is not None:
+                        ip, it, inx = serials.index(prev), serials.index(t), serials.index(nxt)
+                        a, b = src["m"][(prev, v)], src["m"][(nxt, v)]
+                        val = a + (b - a) * Fraction(it - ip, inx - ip)
+                    elif prev is not None:
+                        val = src["m"][(prev, v)]
+                    elif nxt is not None:
+                        val = src["m"][(nxt, v)]
+                else:
+                    raise Undefined
+                if val is not None:
+                    m[(t, v)] = val
+        put(k, m, src["nv"])
+    elif op == "rw":
+        i = I(1); rep, src = reps[i], oracle[i]
+        tname = ws[2]
+        c = None if tname == "isnan" else Fraction(ws[3])
+        newv = fr(cellf(ws[4]))
+        def hit(x):
+            if tname == "isnan":
+                return x is None
+            if x is None:
+                return tname == "ne"
+            return COP[tname](x, c)
+        m = {}
+        for t in span_of(rep):
+            for v in range(src["nv"]):
+                x = src["m"].get((t, v))
+                y = newv if hit(x) else x
+                if y is not None:
+                    m[(t, v)] = y
+        put(i, m, src["nv"])
     elif op == "trim":
         pass
     elif op == "empty":
@@ -610,6 +769,53 @@ def oracle_step(oracle, reps, ws):
     else:
         raise Undefined
     return new, out
+
+
+T_OPS = ("mean", "nanmean", "avg", "linear")     # division by a number that need not be a power of two: class T from there on
+TOL = 1e-9
+
+
+def is_t_op(o: str) -> bool:
+    ws = o.split()
+    return bool(ws) and ws[0] in ("stat", "mstat", "mov", "mmov", "fill", "mfill") and any(w in T_OPS for w in ws[1:])
+
+
+def close(a, b, loose) -> bool:
+    if a is None or b is None or not loose:
+        return a == b
+    return abs(a - b) <= TOL * max(1, abs(a), abs(b))
+
+
+def maps_close(m1, m2, loose) -> bool:
+    if not loose:
+        return m1 == m2
+    return m1.keys() == m2.keys() and all(close(m1[k], m2[k], True) for k in m1)
+
+
+def rows_close(r1, r2, loose) -> bool:
+    if not loose:
+        return r1 == r2
+    return len(r1) == len(r2) and all(len(a) == len(b) and all(close(x, y, True) for x, y in zip(a, b)) for a, b in zip(r1, r2))
+
+
+_SEP = re.compile(r"([#&;:, ])")
+
+
+def loose_equal(a: str, b: str) -> bool:
+    """same structure (starts, shapes, NaN masks, error kinds), numeric cells within TOL"""
+    ta, tb = _SEP.split(a), _SEP.split(b)
+    if len(ta) != len(tb):
+        return False
+    for x, y in zip(ta, tb):
+        if x == y:
+            continue
+        try:
+            fx, fy = Fraction(x), Fraction(y)
+        except (ValueError, ZeroDivisionError):
+            return False
+        if abs(fx - fy) > TOL * max(1, abs(fx), abs(fy)):
+            return False
+    return True
 
 
 def is_trimmed(x) -> bool:
@@ -667,10 +873,13 @@ def run_line(line: str, ctx: Ctx | None = None, check: bool = True):
     pool = [Series() for _ in range(n)]
     oracle = [{"nv": 1, "m": {}} for _ in range(n)]
     replies = []
+    loose = False
     for k, o in enumerate(ops):
         ws = o.split()
+        loose = loose or is_t_op(o)
         name = ws[0] if ws else "?"
-        base_name = {"foverlay": "overlay", "funderlay": "underlay", "fshift": "shift", "idx": "shift", "rsc": "sc", "cmp": "bin"}.get(name, name)
+        base_name = {"foverlay": "overlay", "funderlay": "underlay", "fshift": "shift", "idx": "shift", "rsc": "sc", "cmp": "bin",
+                     "mstat": "stat", "mmov": "mov", "mfill": "fill"}.get(name, name)
         tainted = set()
         old = list(pool)
         snaps = [(x.start, x.data.copy()) for x in old]
@@ -704,7 +913,7 @@ def run_line(line: str, ctx: Ctx | None = None, check: bool = True):
             for idx, x in enumerate(old):
                 if err is None and idx == receiver:
                     continue
-                if err is not None and name in METHODS and idx == int(ws[1]):
+                if err is not None and name in METHODS and ws[1].isdigit() and idx == int(ws[1]):
                     continue
                 if not same_state(x, snaps[idx]):
                     tainted.add(idx)
@@ -738,18 +947,20 @@ def run_line(line: str, ctx: Ctx | None = None, check: bool = True):
             if pool[idx] is old[idx] and idx in tainted:
                 oracle[idx] = {"nv": x.data.shape[1], "m": m or {}}     # already reported as an isolation failure
                 continue
-            if m is not None and (m != oracle[idx]["m"] or x.data.shape[1] != oracle[idx]["nv"]):
+            if m is not None and (not maps_close(m, oracle[idx]["m"], loose) or x.data.shape[1] != oracle[idx]["nv"]):
                 diff = sorted(set(m.items()) ^ set(oracle[idx]["m"].items()))[:4]
                 fail(f"map-{base_name}", f"after `{o}` pool[{idx}] is not the map the statement prescribes "
                      f"(variants {x.data.shape[1]} vs {oracle[idx]['nv']}; differing cells {[(a, str(b)) for a, b in diff]})", k)
                 oracle[idx] = {"nv": x.data.shape[1], "m": m}
+            elif loose and m is not None:
+                oracle[idx] = {"nv": x.data.shape[1], "m": m}
         if out is not None:
             got = parse_out(text)
             if out[0] == "data":
-                if got[0] != "data" or got[1] != out[1] or got[2] != out[2]:
+                if got[0] != "data" or not rows_close(got[1], out[1], loose) or got[2] != out[2]:
                     fail(f"read-{base_name}", f"`{o}` returned {text} but the map holds {[[str(c) for c in r] for r in out[1]]}", k)
             else:
-                if got[0] != "series" or got[1] != out[1] or got[2] != out[2]:
+                if got[0] != "series" or not maps_close(got[1], out[1], loose) or got[2] != out[2]:
                     fail(f"map-cmp", f"`{o}` returned {text}, expected cells {sorted((a, str(b)) for a, b in out[1].items())[:6]}", k)
         if name in TRIM_OPS and not (name == "set" and nd_set == 0):
             # (a `set` that addresses no date is not a write: `clip`/`empty()` may have left untrimmed rows or a bare start there)
@@ -897,7 +1108,24 @@ def gen_data(rng, nd, nvid, pool, malformed):
     return f"ser={rng.randint(0, len(pool) - 1)}"
 
 
-OP_WEIGHTS = [("set", 14), ("get", 5), ("gfu", 2), ("call", 3), ("shift", 3), ("fshift", 2), ("idx", 2), ("clip", 4),
+def tiny_enough(x, count) -> bool:
+    """operands whose product over `count` factors is exact in double"""
+    if count > 3 or x.data.dtype != np.float64:
+        return False
+    for v in x.data.ravel():
+        if v != v:
+            continue
+        n, den = float(v).as_integer_ratio()
+        if abs(n) >= (1 << 8) or den > (1 << 8):
+            return False
+    return True
+
+
+def pow2(n) -> bool:
+    return n >= 1 and (n & (n - 1)) == 0
+
+
+OP_WEIGHTS = [("stat", 5), ("mov", 4), ("fillop", 4), ("rw", 2), ("set", 14), ("get", 5), ("gfu", 2), ("call", 3), ("shift", 3), ("fshift", 2), ("idx", 2), ("clip", 4),
               ("overlay", 4), ("underlay", 3), ("foverlay", 2), ("funderlay", 2), ("hstack", 3), ("bin", 8), ("cmp", 2),
               ("sc", 3), ("rsc", 2), ("un", 2), ("trim", 1), ("empty", 1), ("copy", 2), ("init", 3), ("new", 1), ("kwshift", 2)]
 
@@ -922,6 +1150,49 @@ def gen_op(rng, pool, f, malformed):
             if a == b or a == 1 or b == 1:
                 break
             j = rng.randint(0, n - 1)
+    if name in ("stat", "mov", "rw") and not small_enough(x):
+        return f"copy {k} {i}"                         # inexact values (after a class-T op) only flow through structural ops
+    if name == "stat":
+        nv = x.data.shape[1]
+        fn = rng.choice(STATS)
+        if fn in ("prod", "nanprod") and not tiny_enough(x, nv):
+            fn = "sum" if fn == "prod" else "nansum"
+        if fn in ("mean", "nanmean") and rng.chance(0.7):
+            # mostly exact: every divisor a power of two
+            counts = [nv] if fn == "mean" else [int(c) for c in np.sum(~np.isnan(x.data), axis=1)]
+            if not all(pow2(c) or c == 0 for c in counts):
+                fn = "sum" if fn == "mean" else "nanmax"
+        if nv == 0:
+            fn = "sum"
+        return f"stat {k} {fn} {i}" if rng.chance(0.75) else f"mstat {i} {fn}"
+    if name == "mov":
+        fn = rng.weighted([("sum", 4), ("avg", 3), ("prod", 2)])
+        w = rng.weighted([("-", 2), (-1, 1), (-2, 4), (-3, 2), (-4, 2), (-5, 1), (0, 0.2), (2, 0.2)])
+        wl = -(w if w != "-" else (-FVAL[reported(x)[0]] if reported(x)[0] and FVAL[reported(x)[0]] > 0 else -4))
+        if fn == "prod" and not tiny_enough(x, wl):
+            fn = "sum"
+        if fn == "avg" and not pow2(wl) and rng.chance(0.7):
+            fn = "sum"
+        return f"mov {k} {fn} {i} {w}" if rng.chance(0.75) else f"mmov {i} {fn} {w}"
+    if name == "fillop":
+        method = rng.choice(FILLS)
+        if method == "linear" and not small_enough(x):
+            method = "previous"
+        arg = gen_cell(rng, 0.1) if method == "constant" else "-"
+        kind = rng.weighted([("all", 5), ("span", 4), ("list", 0.5)])
+        if kind == "all":
+            d = "all"
+        elif kind == "list":
+            d = gen_dates(rng, x, f, malformed)
+        else:
+            rep = reported(x)
+            g0 = rep[0] if (rep[0] is not None and not malformed) else g
+            a = gen_period_near(rng, x, g0)
+            d = f"sp={ptok(g0, a)},{ptok(g0, a + rng.randint(0, 7))},1"
+        return f"fill {k} {i} {method} {arg} {d}" if rng.chance(0.7) else f"mfill {i} {method} {arg} {d}"
+    if name == "rw":
+        t = rng.choice(list(TESTS))
+        return f"rw {i} {t} {rat_of_float(rng.dyadic(-6, 6, 1))} {gen_cell(rng, 0.4)}"
     if name == "new":
         return f"new {k} {f} {rng.weighted([(1, 4), (2, 3), (3, 1)])}"
     if name == "init":
@@ -972,6 +1243,8 @@ def gen_op(rng, pool, f, malformed):
             return f"copy {k} {i}"
         return f"bin {k} {rng.choice(ops)} {i} {j}"
     if name == "cmp":
+        if not arith_ok:
+            return f"copy {k} {i}"
         return f"cmp {rng.choice(['gt', 'lt', 'ge', 'le', 'eq', 'ne'])} {i} {j}"
     if name in ("sc", "rsc"):
         if not small_enough(pool[i]):
@@ -1037,6 +1310,22 @@ def directed_lines(ctx: Ctx):
         for v in ("all", "v=1", "v=-2", "vl=1,0", "vl="):
             for x in ("s=5", "s=nan", "none", "vs=9", "vs=9;nan", "a1=4", "a=4,5", "ser=1", "ser=0"):
                 lines.append(f"{head} | set 0 {d} {v} {x} | get 0 {d} {v} | get 0 all all")
+    # statistics, moving windows, fill_missing, replace_where on blocks with every kind of gap, and on empty series
+    heads = ["3 | init 0 Q 8080 2 nan,1:2,nan:nan,nan:nan,nan:6,nan:nan,8",
+             "3 | init 0 Q 8081 1 1:nan:3:nan:nan:nan:7:8 | clip 0 Q8080 Q8086",
+             "3 | init 0 M 24240 3 1,2,3:4,nan,6:nan,nan,nan:-1,-2,-4 | clip 0 M24241 M24244",
+             "3 | new 0 Q 2", "3 | init 0 Q 8080 2 1,2 | empty 0", "3 | init 0 I 0 4 1,2,3,4:nan,2,nan,4"]
+    for h in heads:
+        for fn in STATS:
+            lines.append(f"{h} | stat 1 {fn} 0 | mstat 0 {fn}")
+        for fn in MOVS:
+            lines.append(f"{h} | " + " | ".join(f"mov 1 {fn} 0 {w}" for w in (-1, -2, -3, -4, "-")) + f" | mmov 0 {fn} -2 | mov 1 {fn} 0 1")
+        for m in FILLS:
+            arg = "7" if m == "constant" else "-"
+            lines.append(f"{h} | fill 1 0 {m} {arg} all | fill 2 0 {m} {arg} sp=Q8078,Q8089,1 | fill 2 0 {m} {arg} sp=Q8082,Q8084,1 | mfill 0 {m} {arg} all")
+        lines.append(f"{h} | fill 1 0 constant nan all | fill 1 0 previous - l=Q8083,Q8081,Q8081,Q8089 | fill 1 0 nearest - sp=Q8089,Q8079,-2")
+        for t_, c in (("lt", "3"), ("ge", "2"), ("eq", "6"), ("ne", "1"), ("isnan", "0")):
+            lines.append(f"{h} | copy 1 0 | rw 1 {t_} {c} nan | copy 1 0 | rw 1 {t_} {c} 5 | rw 0 {t_} {c} -1/2")
     ctx.count("directed_sequences", len(lines))
     return lines
 
@@ -1128,6 +1417,13 @@ def process(ctx: Ctx, stream: str, lines, shrink_fail=True):
             else:
                 ctx.failures.append(fl)
     model = ctx.model("C10", lines)
+    if model is not None:
+        model = list(model)
+        for n_, (l, a, b) in enumerate(zip(lines, impl, model)):
+            if a != b and any(is_t_op(o) for o in l.split("|")):
+                ctx.count("class_T_lines_compared_with_tolerance")
+                if loose_equal(a, b):
+                    model[n_] = a
     ctx.compare(stream, [{"line": l} for l in lines], impl, model)
     for l, o in list(zip(lines, impl))[:: max(1, len(lines) // 2)][:2]:
         ctx.sample({"stream": stream, "request": l[:400], "implementation": o[:400]})
